@@ -21,6 +21,13 @@ RULE = ("random multifurcating trees (3..14 tips, rooted/unrooted, parent slot a
         "judged on its own and the list required to come back unchanged; outgroup after a public edit that leaves the "
         "tip-name index stale (Node.SetName, GraftTipOnEdge) naming the new tip; midpoint on trees with negative lengths "
         "(outside the quantifier: correspondence only); "
+        "(r4) hand-built trees: the tree assembled with NewNode/ConnectNodes only (harness BuildTreeAPI), each branch "
+        "connected parent->child or child->parent (flips: none / all / random / one deep branch below correct ones), then "
+        "Reroot at the root itself / an inner node / any node, ReinitIndexes, judged as `reroot` (model + audit + index state); "
+        "the command line: gotree reroot outgroup -i FILE [-r] [--strict] names... and gotree reroot midpoint -i FILE on "
+        "files of 2-4 trees over the same or different tip sets (a name absent from the first tree and present later, absent "
+        "names at every position), each printed tree parsed and judged by the oracle against its own input tree (oracle "
+        "only: text output carries no neighbour order; a refusal ends the file and the trees printed before it are judged); "
         "a case is non-trivial when the operation changed the structure; distinct = distinct case text")
 TRUSTED = ["tree built through NewNode/NewEdge + verif hooks (exact neighbour order); dump through Neigh()/Edges()/Left()/Right()"]
 ASSUMPTIONS = ["math/rand: Intn/Int31n transcribed in Model/Rand.v; the recorded Int63 stream is what the code under test consumes"]
@@ -262,6 +269,36 @@ def gen(rng, tier):
             e["len"] = v if v != -1 else Fraction(-2)
         out.append({"sx": sx({"op": Sym("midpoint"), "tree": T(t)}),
                     "meta": {"op": "midpoint", "lens": "negative", "ntips": len(leaves(t))}})
+    # (r4) hand-built trees: assembled with NewNode/ConnectNodes in arbitrary branch directions (flip bit per branch, in
+    # preorder), then oriented by Reroot on the root itself or on another inner node; model = reroot on the structure
+    def edge_depths(t, d=1):
+        for e, c in kids(t):
+            yield d
+            yield from edge_depths(c, d + 1)
+    for i in range({"quick": 120, "thorough": 3000, "search": 300}[tier]):
+        t = g.tree(lo=4, hi=12, maxdeg=3, lenmode="all", supmode="mixed", inner_names=rng.random() < 0.3,
+                   up_random=False, rooted=rng.random() < 0.5)
+        ne = n_nodes(t) - 1
+        deps = list(edge_depths(t))
+        mode = ["none", "all", "random", "deep", "deep", "random"][i % 6]
+        if mode == "none":
+            flip = [False] * ne
+        elif mode == "all":
+            flip = [True] * ne
+        elif mode == "random":
+            flip = [rng.random() < 0.5 for _ in range(ne)]
+        else:
+            deep = [j for j, d in enumerate(deps) if d >= 3]
+            flip = [False] * ne
+            if deep:
+                flip[rng.choice(deep)] = True
+            else:
+                flip[rng.randrange(ne)] = True
+        inner = [j for j, x in enumerate(preorder(t)) if kids(x)]
+        r = rng.random()
+        idx = 0 if r < 0.5 else (rng.choice(inner) if r < 0.9 else rng.randrange(ne + 2))
+        o = {"op": Sym("handbuilt"), "tree": T(t), "flip": flip, "i": idx}
+        out.append({"sx": sx(o), "meta": {"op": "handbuilt", "flip": mode, "atroot": idx == 0, "ntips": len(leaves(t))}})
     # every tip subset of small trees, both flags
     m = {"quick": 4, "thorough": 150, "search": 10}[tier]
     for t, style in root_trees(rng, g, m, 5 if tier == "quick" else 6):
@@ -273,3 +310,140 @@ def gen(rng, tier):
 # (none: the three defects found here -- zero-length cut branch losing length and support, midpoint panic on an
 # all-zero tree, midpoint misplaced when the longest path ended with zero-length branches -- were fixed in /repo)
 MATCHERS = {}
+
+# ---------------------------------------------------------------- the command line on multi-tree files (r4)
+# `gotree reroot outgroup -i multi.nw [-r] [--strict] names...` and `gotree reroot midpoint -i multi.nw`: 2-4 trees on
+# the same or on different tip sets, outgroup names absent from the first tree and present later, absent names at every
+# position; every printed tree is parsed and judged by the oracle of Judge/C05.v against ITS input tree (oracle only:
+# neighbour orders are not comparable through Newick text).
+
+def _parse_newick(text):
+    pos = [0]
+    def node(is_root):
+        kidsl = []
+        if text[pos[0]] == "(":
+            pos[0] += 1
+            while True:
+                kidsl.append(node(False))
+                if text[pos[0]] == ",":
+                    pos[0] += 1
+                    continue
+                if text[pos[0]] == ")":
+                    pos[0] += 1
+                    break
+                raise ValueError("bad newick at %d" % pos[0])
+        st = pos[0]
+        while pos[0] < len(text) and text[pos[0]] not in ":,();":
+            pos[0] += 1
+        label = text[st:pos[0]]
+        ln = None
+        if pos[0] < len(text) and text[pos[0]] == ":":
+            pos[0] += 1
+            st = pos[0]
+            while pos[0] < len(text) and text[pos[0]] not in ",();":
+                pos[0] += 1
+            ln = Fraction(text[st:pos[0]])
+        sup, name = None, label
+        if kidsl and label:
+            try:
+                sup, name = Fraction(label), ""
+            except ValueError:
+                pass
+        n = {"name": name, "coms": [], "slots": ([] if is_root else [None]) + [(e, c) for e, c in kidsl]}
+        return ({"len": ln, "sup": sup, "pv": None, "coms": []}, n)
+    e, n = node(True)
+    return n
+
+def extra(tier, seed, st):
+    import cli, random, subprocess
+    info = {"cli_runs": 0, "cli_trees_judged": 0, "evaluations": 0, "distinct_nontrivial": 0}
+    ok, err = cli.build_gotree()
+    if not ok:
+        return [("build", "gotree no longer builds: " + err[-500:], None)], info
+    rng = random.Random(seed + 505)
+    g = Gen(rng)
+    d = cli.scratch("c05cli-")
+    jobs = []     # (argv, file text, [(case sx, input tree)], op)
+    nfiles = {"quick": 60, "thorough": 600}.get(tier, 60)
+    for i in range(nfiles):
+        k = rng.choice([2, 2, 3, 4])
+        universe = ["t%d" % j for j in range(rng.randint(4, 8))]
+        trees = []
+        for j in range(k):
+            if j > 0 and rng.random() < 0.3:
+                trees.append(trees[0])
+                continue
+            sub = universe if rng.random() < 0.4 else rng.sample(universe, rng.randint(3, len(universe)))
+            sh = g.shape(sub, maxdeg=4, rootdeg=2 if rng.random() < 0.4 or len(sub) < 3 else min(len(sub), 3))
+            trees.append(g.decorate(sh, lenmode="all", supmode="mixed"))
+        if i % 2 == 0 and k >= 2 and set(leaves(trees[0])) == set(leaves(trees[1])) and len(universe) > 3:
+            # make sure that some name is absent from the first tree only
+            sub = rng.sample(universe, len(universe) - 1)
+            trees[0] = g.decorate(g.shape(sub, maxdeg=4, rootdeg=min(len(sub), 3)), lenmode="all", supmode="mixed")
+        text = "".join(newick(t) + "\n" for t in trees)
+        f = os.path.join(d, "m%d.nw" % i)
+        open(f, "w").write(text)
+        if i % 4 == 3:
+            jobs.append((["reroot", "midpoint", "-i", f], text, [({"op": Sym("midpoint"), "tree": T(t), "pre": [Sym("cli"), 0, ""]}, t) for t in trees], "midpoint"))
+            continue
+        src = trees[rng.randrange(k)]
+        ogs = outgroups(rng, src, tier)
+        kind, base = rng.choice(ogs[:6])
+        names = [x for x in base]
+        missing = [x for x in universe if x not in leaves(trees[0])]
+        if missing and rng.random() < 0.7:
+            names.append(rng.choice(missing))
+        for _ in range(rng.choice([0, 1, 2])):
+            names.insert(rng.randrange(0, len(names) + 1), "zz%d" % rng.randrange(3))
+        if not names:
+            names = [rng.choice(universe)]
+        remove, strict = rng.random() < 0.25, rng.random() < 0.3
+        argv = ["reroot", "outgroup", "-i", f] + (["-r"] if remove else []) + (["--strict"] if strict else []) + names
+        jobs.append((argv, text, [({"op": Sym("outgroup"), "tree": T(t), "pre": [Sym("cli"), 0, ""], "names": list(names),
+                                    "remove": remove, "strict": strict}, t) for t in trees], "outgroup"))
+    fails = []
+    lines, back = [], {}
+    for ji, (argv, text, cases, op) in enumerate(jobs):
+        rc, so, se = cli.run(argv, d)
+        info["cli_runs"] += 1
+        outs = [l for l in so.decode("utf-8", "replace").split("\n") if l.strip()]
+        if rc != 0:
+            # a refusal on some tree stops the command (the message is echoed on stdout): the trees printed before it are judged
+            k = 0
+            while k < len(outs) and outs[k].strip().endswith(";") and outs[k].lstrip().startswith("("):
+                k += 1
+            outs = outs[:min(k, len(cases) - 1)]
+            info["cli_refusals"] = info.get("cli_refusals", 0) + 1
+        if rc == 0 and len(outs) != len(cases):
+            fails.append(("cli-" + op, "%d trees printed for %d input trees" % (len(outs), len(cases)),
+                          {"argv": argv[:3] + ["FILE"] + argv[4:], "input": text, "stdout": so.decode("utf-8", "replace")[:2000]}))
+            continue
+        for ti, l in enumerate(outs[:len(cases)]):
+            try:
+                gt = _parse_newick(l.strip())
+            except Exception as ex:
+                fails.append(("cli-" + op, "output tree not readable: %s" % ex, {"argv": argv, "input": text, "line": l[:500]}))
+                continue
+            cid = "%d.%d" % (ji, ti)
+            obs = "((err \"\") (tree %s) (audit ()))" % tree_sx(gt)
+            lines.append("C05\t%s\t%s\t%s\n" % (cid, sx(cases[ti][0]), obs))
+            back[cid] = (argv, text, ti, l)
+    if lines:
+        j = subprocess.run([os.path.join(BUILD, "judge-C05")], input="".join(lines).encode(), stdout=subprocess.PIPE, stderr=subprocess.PIPE, timeout=600)
+        seen = set()
+        for line in j.stdout.decode("utf-8", "surrogateescape").split("\n"):
+            parts = line.split("\t")
+            if len(parts) < 2:
+                continue
+            seen.add(parts[0])
+            info["cli_trees_judged"] += 1
+            if parts[1] != "OK":
+                argv, text, ti, l = back[parts[0]]
+                fails.append(("cli-" + argv[1], "tree %d of the file: %s" % (ti + 1, " ".join(parts[1:3])[:300]),
+                              {"argv": ["gotree"] + argv[:3] + ["FILE"] + argv[4:], "input": text, "tree_index": ti, "output": l[:1000]}))
+        for cid in back:
+            if cid not in seen:
+                fails.append(("cli-judge", "no verdict for " + cid, None))
+    info["evaluations"] = info["cli_trees_judged"]
+    fails.sort(key=lambda x: len(json.dumps(x[2])) if x[2] else 0)
+    return fails[:5], info
